@@ -153,6 +153,8 @@ func init() {
 				{P: P("S6", 165, 3, 3, 0, 1, false), Need: []string{"RelayLearned", "TruncatedDeltas"}},
 				{P: P("S6", 165, 2, 3, 0, 1, true), Need: []string{"LeavesSeen", "Unreachables", "Relearned"}},
 				{P: P("S6", 1400, 3, 2, 0, 0, true), Need: []string{"LeavesSeen"}},
+				// four owner operations: a compaction with a live endpoint newer than the newest tombstone
+				{P: P("S6", 1400, 4, 3, 0, 1, false), Need: []string{"RelayLearned", "MarkersApplied"}},
 			}
 		} else {
 			d := sec(900)
